@@ -48,3 +48,12 @@ package stdlib_contracts
 //@ ensures (result < 0) == lexlt(x, y)
 //@ ensures (result == 0) == (x == y)
 //@ ensures -1 <= result && result <= 1
+
+// A clone of a map is a new map with the same entries (nil stays nil).
+//@ package maps
+//@ func Clone[*]
+//@ assumed
+//@ pure
+//@ ensures[nil] (m == nil) == (result == nil)
+//@ ensures[fresh] m != nil ==> fresh(result)
+//@ ensures[same] m != nil ==> forallkeys(m, k, has(result, k) == has(m, k) && (has(m, k) ==> result[k] == m[k]))
